@@ -3,6 +3,7 @@ package spec
 import (
 	"fmt"
 	"io"
+	"strings"
 
 	"github.com/moorara/algo/errors"
 	"github.com/moorara/algo/grammar"
@@ -29,7 +30,7 @@ func Parse(filename string, src io.Reader) (*Spec, error) {
 		switch i {
 		// term → STRING
 		case 34:
-			a := grammar.Terminal(rhs[0].Val.(string))
+			a := grammar.Terminal(unescape(rhs[0].Val.(string)))
 			table.AddStringTerminal(a, rhs[0].Pos)
 			return a, nil
 
@@ -314,7 +315,7 @@ func Parse(filename string, src io.Reader) (*Spec, error) {
 		// token → TOKEN "=" STRING
 		case 9:
 			token := grammar.Terminal(rhs[0].Val.(string))
-			value := rhs[2].Val.(string)
+			value := unescape(rhs[2].Val.(string))
 
 			table.AddStringTokenDef(token, value, rhs[0].Pos)
 
@@ -391,4 +392,23 @@ func Parse(filename string, src io.Reader) (*Spec, error) {
 	}
 
 	return res.Val.(*Spec), nil
+}
+
+// unescape resolves the backslash escapes in the text of a string literal.
+// A backslash stands for the character following it, so \" is a quotation mark and \\ is a backslash.
+func unescape(s string) string {
+	if !strings.Contains(s, `\`) {
+		return s
+	}
+
+	var b strings.Builder
+	for i := 0; i < len(s); i++ {
+		if s[i] == '\\' && i+1 < len(s) {
+			i++
+		}
+
+		b.WriteByte(s[i])
+	}
+
+	return b.String()
 }
